@@ -25,6 +25,7 @@ EXTENDS Integers, Sequences, FiniteSets, TLC, Json, Rat, Dec
 NLay(lev)  == Len(lev) - 1
 CMin(a, b) == IF a <= b THEN a ELSE b
 CMax(a, b) == IF a >= b THEN a ELSE b
+SeqDecreasing(s) == \A i \in 1..(Len(s) - 1) : s[i + 1] < s[i]
 
 \* ------------------------------------------------------------ cloud deck
 \* opaque at and below the deck: layer pressure >= cloud-top pressure
